@@ -64,6 +64,18 @@ func ruleMergeArms(c *Ctx, r *R) {
 			}
 		}
 		covered := map[types.Object]int{}
+		// function literals bound to local names (exhausted := func(in *<-chan T) bool {…})
+		localClosures := map[types.Object]*ast.FuncLit{}
+		ast.Inspect(fd.Body, func(n ast.Node) bool {
+			if as, ok := n.(*ast.AssignStmt); ok && as.Tok == token.DEFINE && len(as.Lhs) == 1 && len(as.Rhs) == 1 {
+				if lit, ok := as.Rhs[0].(*ast.FuncLit); ok {
+					if id, ok := as.Lhs[0].(*ast.Ident); ok {
+						localClosures[info.Defs[id]] = lit
+					}
+				}
+			}
+			return true
+		})
 		ast.Inspect(fd.Body, func(n ast.Node) bool {
 			cc, ok := n.(*ast.CommClause)
 			if !ok || cc.Comm == nil {
@@ -93,9 +105,52 @@ func ruleMergeArms(c *Ctx, r *R) {
 			sends := 0
 			incs := 0
 			cmpOK := false
-			ast.Inspect(&ast.BlockStmt{List: cc.Body}, func(m ast.Node) bool {
+			var inspectBody func(body ast.Node, ptrArg map[types.Object]ast.Expr)
+			var visit func(m ast.Node, ptrArg map[types.Object]ast.Expr) bool
+			inspectBody = func(body ast.Node, ptrArg map[types.Object]ast.Expr) {
+				ast.Inspect(body, func(m ast.Node) bool { return visit(m, ptrArg) })
+			}
+			visit = func(m ast.Node, ptrArg map[types.Object]ast.Expr) bool {
 				switch s := m.(type) {
+				case *ast.CallExpr:
+					// a local helper (exhausted(&in0)) that does the bookkeeping of a closed input: look inside, with
+					// *param standing for the variable whose address is passed
+					if id, ok := s.Fun.(*ast.Ident); ok {
+						if lit := localClosures[info.Uses[id]]; lit != nil && ptrArg == nil {
+							pa := map[types.Object]ast.Expr{}
+							k := 0
+							for _, f := range lit.Type.Params.List {
+								for _, pn := range f.Names {
+									if k < len(s.Args) {
+										pa[info.Defs[pn]] = s.Args[k]
+									}
+									k++
+								}
+							}
+							inspectBody(lit.Body, pa)
+						}
+					}
 				case *ast.AssignStmt:
+					if ptrArg != nil && len(s.Lhs) == 1 && len(s.Rhs) == 1 {
+						// *p = nil with p bound to &X
+						if st, ok := s.Lhs[0].(*ast.StarExpr); ok {
+							if pid, ok := st.X.(*ast.Ident); ok {
+								if arg, ok := ptrArg[info.Uses[pid]]; ok {
+									if id, ok := s.Rhs[0].(*ast.Ident); ok && id.Name == "nil" {
+										if ue, ok := arg.(*ast.UnaryExpr); ok && ue.Op == token.AND {
+											if x, ok := ue.X.(*ast.Ident); ok {
+												if info.Uses[x] == chObj {
+													nilAssigned++
+												} else {
+													problems = append(problems, "disables "+x.Name+" instead of "+chID.Name)
+												}
+											}
+										}
+									}
+								}
+							}
+						}
+					}
 					if s.Tok == token.ADD_ASSIGN && len(s.Rhs) == 1 {
 						if lit, ok := s.Rhs[0].(*ast.BasicLit); ok && lit.Value == "1" {
 							incs++
@@ -134,7 +189,8 @@ func ruleMergeArms(c *Ctx, r *R) {
 					}
 				}
 				return true
-			})
+			}
+			inspectBody(&ast.BlockStmt{List: cc.Body}, nil)
 			if nilAssigned != 1 {
 				problems = append(problems, "must set "+chID.Name+" = nil exactly once when it is closed")
 			}
@@ -165,14 +221,18 @@ func ruleMergeDispatch(c *Ctx, r *R) {
 		return
 	}
 	inP := fn.Params[len(fn.Params)-1]
-	instrs(fn, func(b *ssa.BasicBlock, i int, in ssa.Instruction) {
+	for _, dd := range deepInstrs(fn, 2) {
+		b, in := dd.in.Block(), dd.in
 		call, ok := in.(*ssa.Call)
 		if !ok {
-			return
+			continue
 		}
 		cal := staticCallee(&call.Call)
 		if cal == nil {
-			return
+			continue
+		}
+		if (cal.Name() == "merge2" || cal.Name() == "merge3") && len(dd.calls) > 0 {
+			continue
 		}
 		switch {
 		case cal.Name() == "merge2" || cal.Name() == "merge3":
@@ -216,7 +276,7 @@ func ruleMergeDispatch(c *Ctx, r *R) {
 			}
 			r.ok(guarded, "chans.Merge|reflect-select-guard", call.Pos(), "reflect.Select must be guarded by a non-empty case list on every iteration, including the first: with zero inputs (or after the last one closed) it blocks forever")
 		}
-	})
+	}
 	// len(in) == 1 path: range in[0] forwarding to out
 	one := false
 	instrs(fn, func(b *ssa.BasicBlock, i int, in ssa.Instruction) {
@@ -233,10 +293,11 @@ func ruleMergeDispatch(c *Ctx, r *R) {
 	r.ok(one, "chans.Merge|single-input-forward", fn.Pos(), "the one-input path must forward every item received from in[0] to out")
 	// the general path sends the received item to out
 	gen := false
-	instrs(fn, func(b *ssa.BasicBlock, i int, in ssa.Instruction) {
-		snd, ok := in.(*ssa.Send)
-		if !ok || snd.Chan != ssa.Value(fn.Params[0]) {
-			return
+	for _, dd := range deepInstrs(fn, 2) {
+		b := dd.in.Block()
+		snd, ok := dd.in.(*ssa.Send)
+		if !ok || argOf(snd.Chan, dd.calls) != ssa.Value(fn.Params[0]) {
+			continue
 		}
 		if strings.Contains(path(snd.X), "Interface") {
 			for _, g := range guardsOf(b) {
@@ -247,7 +308,7 @@ func ruleMergeDispatch(c *Ctx, r *R) {
 				}
 			}
 		}
-	})
+	}
 	r.ok(gen, "chans.Merge|general-forward", fn.Pos(), "the reflect path must send the received value to out exactly when the receive reported ok")
 }
 
@@ -312,6 +373,26 @@ func ruleReplicateShape(c *Ctx, r *R) {
 
 // rangeOver: idx is the index variable of `for i := range s` (go/ssa lowers it to phi(-1, i+1) with i+1 < len(s)).
 func rangeOver(idx ssa.Value, s ssa.Value) bool {
+	// for i := 0; i < len(s); i++
+	if phi, ok := idx.(*ssa.Phi); ok {
+		zero, step := false, false
+		for _, e := range phi.Edges {
+			if isConstInt(e, 0) {
+				zero = true
+			}
+			if add, ok := e.(*ssa.BinOp); ok && add.Op == token.ADD && add.X == ssa.Value(phi) && isConstInt(add.Y, 1) {
+				step = true
+			}
+		}
+		if zero && step && phi.Referrers() != nil {
+			for _, ref := range *phi.Referrers() {
+				if cmp, ok := ref.(*ssa.BinOp); ok && cmp.Op == token.LSS && cmp.X == ssa.Value(phi) && isLenOf(cmp.Y, s) {
+					return true
+				}
+			}
+		}
+		return false
+	}
 	bin, ok := idx.(*ssa.BinOp)
 	if !ok || bin.Op != token.ADD || !isConstInt(bin.Y, 1) {
 		return false
@@ -400,53 +481,67 @@ func ruleMergeZeroTrip(c *Ctx, r *R) {
 	r.ok(okZero, "stream.Merge|zero-trip", fn.Pos(), "all Close calls of the PipeSender sit in workers spawned once per input; with zero inputs nothing closes it and Next blocks forever: a Close(nil) (or an empty-stream return) guarded by len(in) == 0 is required")
 }
 
+// varKey names the variable an address denotes: a local (possibly captured) variable by its cell, a struct field by type and
+// field name - so that &closeOnce in two sibling closures, or &m.closeOnce in two methods, compare equal.
+func varKey(addr ssa.Value) string {
+	if cell := cellOf(addr); cell != nil {
+		return "cell:" + cell.Comment + "@" + itoa(int(cell.Pos()))
+	}
+	if fa, ok := addr.(*ssa.FieldAddr); ok {
+		return "field:" + typeShort(fa.X.Type()) + "." + fieldName(fa.X.Type(), fa.Field)
+	}
+	return ""
+}
+
 func ruleMergeCloseOnce(c *Ctx, r *R) {
 	bi := bgAnalyse(c, "stream.Merge")
 	if bi == nil {
 		r.undecided("stream.Merge|missing", token.NoPos, "function not found")
 		return
 	}
-	n := 0
+	// the once flag is the variable some worker CASes 0→1
+	onceKey := ""
 	for _, g := range bi.all {
-		instrs(g, func(b *ssa.BasicBlock, i int, in ssa.Instruction) {
-			call, ok := in.(*ssa.Call)
-			if !ok {
-				return
+		instrs(g, func(_ *ssa.BasicBlock, _ int, y ssa.Instruction) {
+			if cc, ok := y.(*ssa.Call); ok {
+				if f := cc.Call.StaticCallee(); f != nil && f.Name() == "CompareAndSwapUint32" {
+					onceKey = varKey(cc.Call.Args[0])
+				}
+			}
+		})
+	}
+	n := 0
+	seenClose := map[ssa.Instruction]bool{}
+	for _, w := range bi.spawned {
+		for _, d := range deepInstrs(w, 3) {
+			call, ok := d.in.(*ssa.Call)
+			if !ok || seenClose[call] {
+				continue
 			}
 			cal := staticCallee(&call.Call)
 			if cal == nil || cal.Name() != "Close" || cal.Signature.Recv() == nil || !isNamedType(cal.Signature.Recv().Type(), "stream", "PipeSender") {
-				return
+				continue
 			}
+			seenClose[call] = true
 			n++
+			b := call.Block()
 			key := "stream.Merge|worker-close#" + itoa(n)
 			casOK, lastOut, onceZero := false, false, false
-			var onceCell *ssa.Alloc
-			// the once flag is the variable some worker CASes 0→1
-			for _, g2 := range bi.all {
-				instrs(g2, func(_ *ssa.BasicBlock, _ int, y ssa.Instruction) {
-					if cc, ok := y.(*ssa.Call); ok {
-						if f := cc.Call.StaticCallee(); f != nil && f.Name() == "CompareAndSwapUint32" {
-							onceCell = cellOf(cc.Call.Args[0])
-						}
-					}
-				})
-			}
 			for _, gd := range guardsOf(b) {
 				if v, val := gd.boolVal(); val {
 					if cc, ok := v.(*ssa.Call); ok {
 						if f := cc.Call.StaticCallee(); f != nil && f.Name() == "CompareAndSwapUint32" && isConstInt(cc.Call.Args[1], 0) && isConstInt(cc.Call.Args[2], 1) {
 							casOK = true
-							onceCell = cellOf(cc.Call.Args[0])
 						}
 					}
 				}
 				if cf, ok := gd.asCmp(); ok && cf.op == token.EQL {
 					// last one out: atomic.AddUint32(&counter, 1) == len(in)
 					if ac, ok := resolveVal(cf.x).(*ssa.Call); ok {
-						if f := ac.Call.StaticCallee(); f != nil && f.Name() == "AddUint32" && isConstInt(ac.Call.Args[1], 1) && isLenOf(cf.y, bi.fn.Params[0]) {
+						if f := ac.Call.StaticCallee(); f != nil && f.Name() == "AddUint32" && isConstInt(ac.Call.Args[1], 1) && lenOfInputs(cf.y, bi.fn) {
 							lastOut = true
 						}
-						if f := ac.Call.StaticCallee(); f != nil && f.Name() == "LoadUint32" && isConstInt(cf.y, 0) && onceCell != nil && cellOf(ac.Call.Args[0]) == onceCell {
+						if f := ac.Call.StaticCallee(); f != nil && f.Name() == "LoadUint32" && isConstInt(cf.y, 0) && onceKey != "" && varKey(ac.Call.Args[0]) == onceKey {
 							onceZero = true
 						}
 					}
@@ -457,40 +552,100 @@ func ruleMergeCloseOnce(c *Ctx, r *R) {
 			case casOK:
 				// cancel() before Close(err) in this block; err is the error the input returned
 				cancelBefore := false
-				for _, x := range b.Instrs[:i] {
+				for _, x := range b.Instrs[:idxIn(call)] {
 					if cc, ok := x.(*ssa.Call); ok && strings.Contains(strings.ToLower(path(cc.Call.Value)), "cancel") {
 						cancelBefore = true
 					}
 				}
-				fromNext := false
-				if ex, ok := errArg.(*ssa.Extract); ok {
-					if nc, ok := ex.Tuple.(*ssa.Call); ok && nc.Call.IsInvoke() && nc.Call.Method.Name() == "Next" {
-						fromNext = true
+				fromNext := true
+				ls := valueLeaves(errArg, d.calls, 0)
+				for _, lf := range ls {
+					ex, ok := lf.v.(*ssa.Extract)
+					if !ok {
+						fromNext = false
+						continue
+					}
+					if nc, ok := ex.Tuple.(*ssa.Call); !ok || !nc.Call.IsInvoke() || nc.Call.Method.Name() != "Next" {
+						fromNext = false
 					}
 				}
-				r.ok(cancelBefore && fromNext, key, call.Pos(), "after winning the CAS the worker must cancel() and then Close with the error its input returned (first error wins)")
+				r.ok(cancelBefore && fromNext && len(ls) > 0, key, call.Pos(), "after winning the CAS the worker must cancel() and then Close with the error its input returned (first error wins)")
 			case lastOut && onceZero:
 				r.ok(isNilConst(errArg), key, call.Pos(), "the last worker out closes the sender with nil, and only if no error close happened")
 			default:
 				r.violated(key, call.Pos(), "sender.Close is neither guarded by a successful CAS on closeOnce nor by the last-one-out test with closeOnce == 0: the sender could be closed twice (panic) or never")
 			}
-		})
+		}
 	}
 	if n < 2 {
 		r.violated("stream.Merge|worker-closes", bi.fn.Pos(), "expected an error close and a last-one-out close in the workers")
 	}
-	// the last-one-out test runs in a deferred closure registered first-thing, so it runs on every exit
+	// the last-one-out test runs in a deferred function registered unconditionally, so it runs on every exit
 	for _, g := range bi.spawned {
 		okDef := false
-		for _, in := range g.Blocks[0].Instrs {
-			if d, ok := in.(*ssa.Defer); ok {
-				if f := resolveFuncValue(d.Call.Value, 0); f != nil && f.Parent() == g {
+		for _, fr := range deepFrames(g, 2) {
+			for _, in := range fr.f.Blocks[0].Instrs {
+				d, ok := in.(*ssa.Defer)
+				if !ok {
+					continue
+				}
+				f := staticCallee(&d.Call)
+				if f == nil || f.Blocks == nil {
+					continue
+				}
+				counts := false
+				for _, d2 := range deepInstrs(f, 2) {
+					if cc, ok := d2.in.(*ssa.Call); ok {
+						if sf := cc.Call.StaticCallee(); sf != nil && sf.Name() == "AddUint32" {
+							counts = true
+						}
+					}
+				}
+				if counts {
 					okDef = true
 				}
 			}
 		}
 		r.ok(okDef, "stream.Merge|done-count-deferred", g.Pos(), "the done-count/last-one-out logic must be deferred unconditionally so every exit of a worker is counted")
 	}
+}
+
+// lenOfInputs: v is len(in) of Merge's variadic parameter (directly, as a captured variable, or as a field the constructor
+// filled from it).
+func lenOfInputs(v ssa.Value, merge *ssa.Function) bool {
+	call, ok := resolveVal(v).(*ssa.Call)
+	if !ok {
+		if cv, ok2 := resolveVal(v).(*ssa.Convert); ok2 {
+			return lenOfInputs(cv.X, merge)
+		}
+		return false
+	}
+	bi, ok := call.Call.Value.(*ssa.Builtin)
+	if !ok || bi.Name() != "len" || len(call.Call.Args) != 1 {
+		return false
+	}
+	inP := merge.Params[0]
+	pv := valueProv(call.Call.Args[0], provEnv{})
+	if pv.root == ssa.Value(inP) && len(pv.fields) == 0 {
+		return true
+	}
+	// a field of a struct built in Merge whose value is the parameter
+	if len(pv.fields) >= 1 {
+		fld := pv.fields[len(pv.fields)-1]
+		found := false
+		instrs(merge, func(_ *ssa.BasicBlock, _ int, in ssa.Instruction) {
+			if st, ok := in.(*ssa.Store); ok {
+				if fa, ok := st.Addr.(*ssa.FieldAddr); ok && fieldName(fa.X.Type(), fa.Field) == fld {
+					sv := valueProv(st.Val, provEnv{})
+					if sv.root == ssa.Value(inP) && len(sv.fields) == 0 {
+						found = true
+					}
+				}
+			}
+		})
+		return found
+	}
+	return false
 }
 
 func ruleMergeWorkerShape(c *Ctx, r *R) {
